@@ -387,8 +387,6 @@ def do_cases(part, item_key, cases, seed, rep):
         for clause, what in fails:
             stash(rep, item_key, clause, feats, what, {"part": part, "case": case, "seed": seed},
                   size=len(repr(case)))
-    if cases and len(rep.samples) < 1:
-        rep.sample({"part": part, "case": cases[len(cases) // 2]})
 
 
 # --------------------------------------------------------------------------- E-ENUM domains
@@ -672,8 +670,6 @@ def w_history(item, rep):
 
     done = bfs([(init, variant)], hist_alphabet, apply, hist_canon, depth, rep)
     rep.part("history", **{"depth_completed_" + variant: done})
-    if len(rep.samples) < 1:
-        rep.sample({"part": "history", "variant": variant, "depth": done})
 
 
 # --------------------------------------------------------------------------- work dispatch
@@ -706,6 +702,16 @@ def run(tier, seed, rep, only=None):
     ncases = sum(len(it[2]) for it in items if it[0] != "history")
     pmap(work, items, rep)
     collapse(rep, PID)
+    del rep.samples[:]  # written-out cases chosen here, not by whichever worker finishes first
+    for it in items:
+        if it[0] == "history":
+            rep.sample({"part": "history", "initial": it[2], "ops": ["hop", ["ch", 26], "exit", "foreign_rf24", "enter"][:it[3]],
+                        "then": "advertise; decode for the BLE channel of RF_CH"})
+    for part in ("fields", "chunks", "misc"):
+        its = [it for it in items if it[0] == part]
+        if its:
+            cases = its[len(its) // 2][2]
+            rep.sample({"part": part, "case": cases[len(cases) // 2]})
     rep.states += len([it for it in items if it[0] != "history"])
     return dict(
         level="model_checking",
